@@ -75,7 +75,9 @@ func (o *Obligation) Script() string {
 	// leaving them out keeps ground queries decidable, so refutations come back
 	// as sat with a model rather than unknown.
 	ds := defs.String()
-	quantified := strings.Contains(bs, "(forall ") || strings.Contains(bs, "(exists ") || strings.Contains(ds, "(forall ") || strings.Contains(ds, "(exists ")
+	quantified := strings.Contains(bs, "(forall ") || strings.Contains(bs, "(exists ") || strings.Contains(ds, "(forall ") || strings.Contains(ds, "(exists ") ||
+		// functions that exist only through their axioms (counting functions, witness markers)
+		strings.Contains(bs, "(cnt_") || strings.Contains(ds, "(cnt_")
 	b.WriteString(ex.slAtDecls(quantified))
 	b.WriteString(ds)
 	if quantified {
